@@ -404,7 +404,7 @@ where
     let operand = D::from(operand);
     let mut r = operand;
 
-    for _i in 1..exponent.abs() {
+    for _i in 1..exponent.unsigned_abs() {
         tick(4);
         r = if let Some(r) = r.checked_mul(operand) {
             r
